@@ -153,6 +153,15 @@ theorem parallelized_blocks_eq_global (k : List α → List β) (cs : List Nat) 
     ((splitBy cs rows).map (List.map k)).flatten = rows.map k := by
   rw [← List.map_flatten, splitBy_flatten cs rows h]
 
+/-- cumsum never goes through map_overlap; what a chunked running sum has to compute is the running
+    sum of each block started from the total carried over from the blocks before it - and that IS the
+    undivided running sum, for every cut -/
+theorem cumsum_blocks_eq_global (o : Ops α) (acc : α) (l1 l2 : List α) :
+    runningSum o acc (l1 ++ l2) = runningSum o acc l1 ++ runningSum o (l1.foldl o.add acc) l2 := by
+  induction l1 generalizing acc with
+  | nil => rfl
+  | cons x r ih => simp [runningSum, ih]
+
 /-- a position keeps the cell count exactly when it is not inner / outer … -/
 theorem length_unchanged_iff (n : Nat) (p : Pos) :
     p.len n = n ↔ (p ≠ .inner ∨ n = 0) ∧ p ≠ .outer := by
